@@ -53,10 +53,12 @@ def in_wait(pid):
     if st is None or st[0] != 'S':
         return False
     w = wchan(pid)
-    if w:
-        return w == 'do_wait'
+    if w and w != '0':
+        # blocked in waitpid; sigsuspend is accepted too so that a repaired runner that waits
+        # with sigsuspend() + waitpid(WNOHANG) can still be driven
+        return w == 'do_wait' or 'sigsuspend' in w
     try:
-        return open('/proc/%d/syscall' % pid).read().split()[0] in ('61', '260', '247')
+        return open('/proc/%d/syscall' % pid).read().split()[0] in ('61', '260', '247', '130', '133')
     except (OSError, IndexError):
         return False
 
@@ -155,9 +157,12 @@ class Sched:
             except OSError:
                 pass
 
-    def read_point(self, timeout):
-        """wait for a point message; returns name, 'exited' or 'blocked' / 'timeout'"""
-        end = time.time() + timeout
+    def advance(self, target):
+        """continue the runner until it stops at sync point <target> ('reached'), blocks in
+        waitpid ('blocked'), or exits ('exited'); target 'blocked' / 'exit' name no point.
+        Other listed points reached on the way are passed through."""
+        self.cont()
+        end = time.time() + (T_EXIT if target == 'exit' else T_POINT)
         blocked_since = None
         while True:
             if b'\n' in self.buf:
@@ -169,16 +174,15 @@ class Sched:
                     st = stat_of(pid)
                     if st is None or st[0] in 'Tt':
                         break
-                    time.sleep(0.0005)
-                if pid != self.pid:
-                    # a point reached in another process (none are placed there): let it go on
-                    try:
-                        os.kill(pid, signal.SIGCONT)
-                    except OSError:
-                        pass
-                    continue
-                self.at = name
-                return name
+                    time.sleep(0.0003)
+                if pid == self.pid and name == target:
+                    self.at = name
+                    return 'reached'
+                try:
+                    os.kill(pid, signal.SIGCONT)
+                except OSError:
+                    pass
+                continue
             r, _, _ = select.select([self.rfd], [], [], 0.002)
             if r:
                 try:
@@ -186,10 +190,13 @@ class Sched:
                 except BlockingIOError:
                     d = b''
                 self.buf += d
-                continue
+                if d:
+                    continue
             if self.exited():
                 return 'exited'
             if in_wait(self.pid) and not any_pending(self.pid):
+                if target == 'blocked':
+                    return 'blocked'
                 if blocked_since is None:
                     blocked_since = time.time()
                 elif time.time() - blocked_since > T_STUCK:
@@ -205,19 +212,31 @@ class Sched:
         try:
             for line in open(self.ready):
                 p = line.split()
-                if len(p) == 2:
+                if len(p) == 2 and p[0] != 'x':
                     m[int(p[0])] = int(p[1])
         except OSError:
             pass
         return m
+
+    def selfexits(self):
+        """nodes that said they exit on their own (written by the probe's SIGUSR1 handler)"""
+        out = []
+        try:
+            for line in open(self.ready):
+                p = line.split()
+                if len(p) == 2 and p[0] == 'x':
+                    out.append(int(p[1]))
+        except OSError:
+            pass
+        return out
 
     def wait_ready(self):
         end = time.time() + T_POINT
         while time.time() < end:
             if len(self.members()) >= self.c['nodes']:
                 return True
-            if self.exited() and not self.members():
-                return False
+            if self.exited() and not self.members() and not descendants(os.getpid()):
+                return False      # the runner is gone and left no child: the step never existed
             time.sleep(0.001)
         return False
 
@@ -232,23 +251,12 @@ class Sched:
     def run_script(self):
         for op, arg in self.c['script']:
             if op == 'R':
-                self.cont()
-                self.reached.append(self.read_point(T_POINT))
+                self.reached.append(self.advance(arg))
             elif op == 'B':
-                self.cont()
-                end = time.time() + T_POINT
-                res = 'timeout'
-                while time.time() < end:
-                    if self.exited():
-                        res = 'exited'
-                        break
-                    if in_wait(self.pid):
-                        res = 'blocked'
-                        break
-                    time.sleep(0.0005)
-                self.reached.append(res)
+                self.reached.append(self.advance('blocked'))
             elif op == 'S':
-                self.wait_ready()
+                if not self.c.get('race'):
+                    self.wait_ready()
                 w = self.where()
                 if arg == 'ALRMREAL':
                     end = time.time() + self.c.get('timeout', 1) + 3
@@ -271,45 +279,38 @@ class Sched:
                 self.wait_ready()
                 pid = self.members().get(int(arg))
                 if pid is not None:
-                    try:
-                        os.kill(pid, signal.SIGUSR1)
-                    except OSError:
-                        pass
-                    end = time.time() + 3
+                    # let a group signal that is already on its way to this member take effect first
+                    end = time.time() + 1.0
                     while time.time() < end:
                         st = stat_of(pid)
                         if st is None or st[0] in 'ZX':
                             break
-                        time.sleep(0.0005)
-                self.selfexit.append(int(arg))
+                        if not sigpending(pid, signal.SIGTERM) and not sigpending(pid, signal.SIGKILL):
+                            break
+                        time.sleep(0.0003)
+                    st = stat_of(pid)
+                    if st is not None and st[0] not in 'ZX':
+                        try:
+                            os.kill(pid, signal.SIGUSR1)
+                        except OSError:
+                            pass
+                        end = time.time() + 1.0
+                        while time.time() < end and int(arg) not in self.selfexits():
+                            st = stat_of(pid)
+                            if st is None or st[0] in 'ZX':
+                                break
+                            time.sleep(0.0003)
+                        end = time.time() + 1.0
+                        while time.time() < end and int(arg) in self.selfexits():
+                            st = stat_of(pid)
+                            if st is None or st[0] in 'ZX':
+                                break
+                            time.sleep(0.0003)
             elif op == 'D':
-                time.sleep(int(arg) / 1000.0)
+                time.sleep(float(arg) / 1000.0)
             elif op == 'F':
                 self.wait_ready()
-                self.finish()
-
-    def finish(self):
-        self.cont()
-        end = time.time() + T_EXIT
-        blocked_since = None
-        while time.time() < end:
-            if self.exited():
-                return
-            st = stat_of(self.pid)
-            if st and st[0] in 'Tt':
-                # stopped at a listed point the script does not wait for: let it go on
-                try:
-                    os.kill(self.pid, signal.SIGCONT)
-                except OSError:
-                    pass
-            if in_wait(self.pid) and not any_pending(self.pid):
-                if blocked_since is None:
-                    blocked_since = time.time()
-                elif time.time() - blocked_since > T_STUCK:
-                    return
-            else:
-                blocked_since = None
-            time.sleep(0.001)
+                self.reached.append(self.advance('exit'))
 
     # -- observation -------------------------------------------------------------
     def scan(self, members, pgid):
@@ -336,14 +337,29 @@ class Sched:
     def observe(self):
         members = self.members()
         pgid = members.get(0, 0)
+        if not pgid:
+            # the main process never reported (race runs): it is the group leader among the
+            # processes that descend from this scheduler, if it still exists in any form
+            for p in descendants(os.getpid()):
+                st = stat_of(p)
+                if st and st[2] == p and p != self.pid:
+                    pgid = p
+            if pgid:
+                members[0] = pgid
         first, strangers = self.scan(members, pgid)
+        if 0 not in members:
+            first[0] = 'gone'      # no trace of a main process: reaped (or the step never existed)
         later = first
         t0 = time.time()
-        for delay in (0.02, 0.08, 0.3):
+        prev = first
+        for delay in (0.02, 0.08, 0.3, 0.6, 1.0, 1.5):
             dt = t0 + delay - time.time()
             if dt > 0:
                 time.sleep(dt)
             later, strangers = self.scan(members, pgid)
+            if delay >= 0.3 and later == prev:
+                break          # nothing changed any more: members hit by a signal have died
+            prev = later
         n = self.c['nodes']
         if self.rc is None:
             result = ['hang', 0]
@@ -369,7 +385,7 @@ class Sched:
             'strangers': strangers,
             'kills': kills,
             'deliveries': self.deliveries,
-            'selfexit': self.selfexit,
+            'selfexit': sorted(set(self.selfexits())),
             'reached': self.reached,
             'stderr': err[-600:],
         }
